@@ -708,6 +708,15 @@ func init() {
 					src += g.line(asmOps[g.r(len(asmOps))])
 				}
 				ls = append(ls, "cli "+hx([]byte(src)))
+				if i%2 == 0 {
+					// ... and whole programs with their batch menu lines (one expansion per batch, not per line)
+					g.risk = ""
+					src = g.line(asmOps[g.r(len(asmOps))])
+					for k := 0; k < 2+g.r(3); k++ {
+						src += g.line(asmBatch[g.r(4)])
+					}
+					ls = append(ls, "cli "+hx([]byte(src)))
+				}
 				g.risk = ""
 				src = ""
 				for k := 0; k < 1+g.r(5); k++ {
